@@ -191,6 +191,11 @@ pub fn dash_path(path: &Path, dash_array: &[f32], mut dash_offset: f32) -> Path 
                     initial_segment = Vec::new();
                     cur_pt = Some(start_point);
 
+                    // whatever follows continues from the subpath's start as a new subpath
+                    dashed.move_to(start_point.x, start_point.y);
+                    is_first_segment = true;
+                    first_dash = true;
+
                     // reset the dash state
                     state = initial;
                 } else {
